@@ -32,6 +32,9 @@ def obligations(tier, seed):
             for j, (kind, opts) in enumerate(GRID_Q):
                 if (i + j) % 2 == 0 or sid in ("p2_plain_then_d", "ret_only", "p1_kwargs"):
                     obs.append(mk_ob("rt", "rt", kind, sid, opts, tier, funcs=FUNCS))
+        for kind, o in (("method", dict(GRID_Q[1][1], ftype_from_ir=True)), ("method", dict(GRID_Q[2][1], ftype_from_ir=True)),
+                        ("function", dict(GRID_Q[0][1], ftype_from_ir=True))):
+            obs.append(mk_ob("rt", "rt", kind, "p1_int_d", o, tier, funcs=FUNCS))
         for kind, o in GRID_Q[2:]:
             ob = mk_ob("pair", "rt", kind, "p1_bool_b", o, tier, funcs=FUNCS)
             ob.name = "pair_%s_bool_then_float" % kind
